@@ -11,6 +11,7 @@ import (
 
 	"github.com/BondMachineHQ/BondMachine/pkg/bondmachine"
 	"github.com/BondMachineHQ/BondMachine/pkg/procbuilder"
+	"github.com/BondMachineHQ/BondMachine/pkg/simbox"
 )
 
 // Env is the environment of one run.
@@ -18,6 +19,8 @@ type Env struct {
 	In       [][]uint64 // per external input: the values offered, in order
 	Gap      []int      // per external input: idle ticks between two transfers (default 0)
 	AckDelay []int      // per external output: ticks between seeing valid and raising received (≥1, default 1)
+	// Delays: per-opcode fixed delay in clocks for the Go simulator (VM.SimDelayMap); ignored by the HDL back end
+	Delays map[string]int `json:",omitempty"`
 }
 
 type inState struct {
@@ -85,6 +88,13 @@ type Runner struct {
 func Start(bm *bondmachine.Bondmachine, env Env) (*Runner, error) {
 	vm := new(bondmachine.VM)
 	vm.Bmach = bm
+	if len(env.Delays) > 0 {
+		sd := simbox.NewSimDelays()
+		for op, d := range env.Delays {
+			sd.OpcodeDelays[op] = simbox.DelayDistribution{int32(d): 1.0}
+		}
+		vm.SimDelayMap = sd
+	}
 	if err := vm.Init(); err != nil {
 		return nil, err
 	}
